@@ -265,6 +265,9 @@ Definition mail_date_by (sep : ascii -> bool) (v : str) : option date :=
     separated by SPACE only: a horizontal tab between the parts (RFC 5322 FWS
     allows it, e.g. a Date: field folded with a tab) makes the parse fail *)
 Definition mail_date (v : str) : option date := mail_date_by (fun c => Ascii.eqb c sp) v.
+(** [strings.ReplaceAll(value, "\t", " ")] (fix "a Date: field folded with a tab"): RFC 5322 folding
+    white space is SP or HTAB *)
+Definition wsp_to_sp (v : str) : str := map (fun c => if Ascii.eqb c tab then sp else c) v.
 
 (** ** the keys that need the message text (Model/SearchText.v instantiates them) *)
 Record text_ops := mk_text_ops {
@@ -336,7 +339,14 @@ Definition group_inner (t : str) : str := match t with _ :: r => removelast r | 
 Definition seqk (r : option bool) (k : option bool) : option bool :=
   match r with None => None | Some true => k | Some false => Some false end.
 
-(** ** evaluateTokens: the loop over [tokens[i:]].  The Go function recurses on
+(** ** evaluateTokens / evaluateKeys (fix "SEARCH measures nested NOT/OR keys once"):
+    the lengths of the keys that start at every token are computed once per token
+    list (searchKeyLengths, right to left) and a nested key is evaluated with the
+    matching part of that table.  Here the table is not materialised: [ctx] is what
+    follows the current slice in the list the table was computed for, so that the
+    entry for the position of [rest] is [search_key_length (rest ++ ctx)]
+    (C12's lens_correct: the table holds searchKeyLength(tokens, i) at every i).
+    The loop over [tokens[i:]].  The Go function recurses on
     the slices of NOT / OR and on the re-tokenised contents of a parenthesised
     list; [fuel] bounds loop iterations plus nesting and [None] is "out of
     fuel" (the code has no run-time failure).  [eval_tokens] supplies a fuel
@@ -345,7 +355,7 @@ Section Eval.
 Variable T : text_ops.
 Variable m : msg.
 
-Fixpoint eval_loop (fuel : nat) (tokens : list str) {struct fuel} : option bool :=
+Fixpoint eval_loop (fuel : nat) (tokens : list str) (ctx : list str) {struct fuel} : option bool :=
   match fuel with
   | O => None
   | S fu =>
@@ -354,47 +364,48 @@ Fixpoint eval_loop (fuel : nat) (tokens : list str) {struct fuel} : option bool 
   | t :: rest =>
       let token := to_upper t in
       (* parenthesised list: one token; every key of the list must match *)
-      if is_group token then seqk (eval_loop fu (parse_search_tokens (group_inner t))) (eval_loop fu rest)
+      if is_group token then seqk (eval_loop fu (parse_search_tokens (group_inner t)) []) (eval_loop fu rest ctx)
       else if Model.SeqSet.is_sequence_set token
-      then andk (Model.SeqSet.matches_sequence_set (m_seq m) token (m_maxseq m)) (eval_loop fu rest)
+      then andk (Model.SeqSet.matches_sequence_set (m_seq m) token (m_maxseq m)) (eval_loop fu rest ctx)
       else
         match kw_of token with
-        | Some KwALL => eval_loop fu rest
-        | Some KwANSWERED => andk (has_flag_go (m_flags m) flag_answered) (eval_loop fu rest)
-        | Some KwDELETED => andk (has_flag_go (m_flags m) flag_deleted) (eval_loop fu rest)
-        | Some KwDRAFT => andk (has_flag_go (m_flags m) flag_draft) (eval_loop fu rest)
-        | Some KwFLAGGED => andk (has_flag_go (m_flags m) flag_flagged) (eval_loop fu rest)
-        | Some KwNEW => andk (has_flag_go (m_flags m) flag_recent && negb (has_flag_go (m_flags m) flag_seen)) (eval_loop fu rest)
-        | Some KwOLD => andk (negb (has_flag_go (m_flags m) flag_recent)) (eval_loop fu rest)
-        | Some KwRECENT => andk (has_flag_go (m_flags m) flag_recent) (eval_loop fu rest)
-        | Some KwSEEN => andk (has_flag_go (m_flags m) flag_seen) (eval_loop fu rest)
-        | Some KwUNANSWERED => andk (negb (has_flag_go (m_flags m) flag_answered)) (eval_loop fu rest)
-        | Some KwUNDELETED => andk (negb (has_flag_go (m_flags m) flag_deleted)) (eval_loop fu rest)
-        | Some KwUNDRAFT => andk (negb (has_flag_go (m_flags m) flag_draft)) (eval_loop fu rest)
-        | Some KwUNFLAGGED => andk (negb (has_flag_go (m_flags m) flag_flagged)) (eval_loop fu rest)
-        | Some KwUNSEEN => andk (negb (has_flag_go (m_flags m) flag_seen)) (eval_loop fu rest)
+        | Some KwALL => eval_loop fu rest ctx
+        | Some KwANSWERED => andk (has_flag_go (m_flags m) flag_answered) (eval_loop fu rest ctx)
+        | Some KwDELETED => andk (has_flag_go (m_flags m) flag_deleted) (eval_loop fu rest ctx)
+        | Some KwDRAFT => andk (has_flag_go (m_flags m) flag_draft) (eval_loop fu rest ctx)
+        | Some KwFLAGGED => andk (has_flag_go (m_flags m) flag_flagged) (eval_loop fu rest ctx)
+        | Some KwNEW => andk (has_flag_go (m_flags m) flag_recent && negb (has_flag_go (m_flags m) flag_seen)) (eval_loop fu rest ctx)
+        | Some KwOLD => andk (negb (has_flag_go (m_flags m) flag_recent)) (eval_loop fu rest ctx)
+        | Some KwRECENT => andk (has_flag_go (m_flags m) flag_recent) (eval_loop fu rest ctx)
+        | Some KwSEEN => andk (has_flag_go (m_flags m) flag_seen) (eval_loop fu rest ctx)
+        | Some KwUNANSWERED => andk (negb (has_flag_go (m_flags m) flag_answered)) (eval_loop fu rest ctx)
+        | Some KwUNDELETED => andk (negb (has_flag_go (m_flags m) flag_deleted)) (eval_loop fu rest ctx)
+        | Some KwUNDRAFT => andk (negb (has_flag_go (m_flags m) flag_draft)) (eval_loop fu rest ctx)
+        | Some KwUNFLAGGED => andk (negb (has_flag_go (m_flags m) flag_flagged)) (eval_loop fu rest ctx)
+        | Some KwUNSEEN => andk (negb (has_flag_go (m_flags m) flag_seen)) (eval_loop fu rest ctx)
         | Some KwNOT =>
-            (* NOT <search-key>: the complete key *)
-            let n := search_key_length rest in
+            (* NOT <search-key>: the complete key; its length is read from the table *)
+            let n := search_key_length (rest ++ ctx) in
             if (length rest <? n)%nat then Some false
-            else notk (eval_loop fu (firstn n rest)) (eval_loop fu (skipn n rest))
+            else notk (eval_loop fu (firstn n rest) (skipn n rest ++ ctx)) (eval_loop fu (skipn n rest) ctx)
         | Some KwOR =>
             (* OR <search-key1> <search-key2>: two complete keys *)
-            let n1 := search_key_length rest in
-            let n2 := search_key_length (skipn n1 rest) in
+            let n1 := search_key_length (rest ++ ctx) in
+            let n2 := search_key_length (skipn n1 (rest ++ ctx)) in
             if (length rest <? n1 + n2)%nat then Some false
-            else ork (eval_loop fu (firstn n1 rest)) (eval_loop fu (firstn n2 (skipn n1 rest)))
-                     (eval_loop fu (skipn (n1 + n2) rest))
+            else ork (eval_loop fu (firstn n1 rest) (skipn n1 rest ++ ctx))
+                     (eval_loop fu (firstn n2 (skipn n1 rest)) (skipn (n1 + n2) rest ++ ctx))
+                     (eval_loop fu (skipn (n1 + n2) rest) ctx)
         | Some ((KwBCC | KwCC | KwFROM | KwSUBJECT | KwTO | KwBODY | KwTEXT) as k) =>
             match rest with
             | [] => Some false
-            | a :: rest1 => andk (t_header_or_body T m k (unquote a)) (eval_loop fu rest1)
+            | a :: rest1 => andk (t_header_or_body T m k (unquote a)) (eval_loop fu rest1 ctx)
             end
         | Some KwHEADER =>
             match rest with
             | f :: rest1 =>
                 match rest1 with
-                | s :: rest2 => andk (t_header T m (unquote f) (unquote s)) (eval_loop fu rest2)
+                | s :: rest2 => andk (t_header T m (unquote f) (unquote s)) (eval_loop fu rest2 ctx)
                 | [] => Some false
                 end
             | [] => Some false
@@ -402,49 +413,49 @@ Fixpoint eval_loop (fuel : nat) (tokens : list str) {struct fuel} : option bool 
         | Some KwKEYWORD =>
             match rest with
             | [] => Some false
-            | a :: rest1 => andk (has_flag_go (m_flags m) (unquote a)) (eval_loop fu rest1)
+            | a :: rest1 => andk (has_flag_go (m_flags m) (unquote a)) (eval_loop fu rest1 ctx)
             end
         | Some KwUNKEYWORD =>
             match rest with
             | [] => Some false
-            | a :: rest1 => andk (negb (has_flag_go (m_flags m) (unquote a))) (eval_loop fu rest1)
+            | a :: rest1 => andk (negb (has_flag_go (m_flags m) (unquote a))) (eval_loop fu rest1 ctx)
             end
         | Some KwLARGER =>
             match rest with
             | [] => Some false
             | a :: rest1 =>
-                andk (match atoi a with Some size => t_size T m size true | None => false end) (eval_loop fu rest1)
+                andk (match atoi a with Some size => t_size T m size true | None => false end) (eval_loop fu rest1 ctx)
             end
         | Some KwSMALLER =>
             match rest with
             | [] => Some false
             | a :: rest1 =>
-                andk (match atoi a with Some size => t_size T m size false | None => false end) (eval_loop fu rest1)
+                andk (match atoi a with Some size => t_size T m size false | None => false end) (eval_loop fu rest1 ctx)
             end
         | Some KwUID =>
             match rest with
             | [] => Some false
-            | a :: rest1 => andk (Model.SeqSet.matches_sequence_set (m_uid m) a (m_maxuid m)) (eval_loop fu rest1)
+            | a :: rest1 => andk (Model.SeqSet.matches_sequence_set (m_uid m) a (m_maxuid m)) (eval_loop fu rest1 ctx)
             end
         | Some KwBEFORE =>
             match rest with [] => Some false
-            | a :: rest1 => andk (matches_date (m_idate m) (unquote a) CBefore) (eval_loop fu rest1) end
+            | a :: rest1 => andk (matches_date (m_idate m) (unquote a) CBefore) (eval_loop fu rest1 ctx) end
         | Some KwON =>
             match rest with [] => Some false
-            | a :: rest1 => andk (matches_date (m_idate m) (unquote a) COn) (eval_loop fu rest1) end
+            | a :: rest1 => andk (matches_date (m_idate m) (unquote a) COn) (eval_loop fu rest1 ctx) end
         | Some KwSINCE =>
             match rest with [] => Some false
-            | a :: rest1 => andk (matches_date (m_idate m) (unquote a) CSince) (eval_loop fu rest1) end
+            | a :: rest1 => andk (matches_date (m_idate m) (unquote a) CSince) (eval_loop fu rest1 ctx) end
         | Some KwSENTBEFORE =>
             match rest with [] => Some false
-            | a :: rest1 => andk (t_sent_date T m (unquote a) CBefore) (eval_loop fu rest1) end
+            | a :: rest1 => andk (t_sent_date T m (unquote a) CBefore) (eval_loop fu rest1 ctx) end
         | Some KwSENTON =>
             match rest with [] => Some false
-            | a :: rest1 => andk (t_sent_date T m (unquote a) COn) (eval_loop fu rest1) end
+            | a :: rest1 => andk (t_sent_date T m (unquote a) COn) (eval_loop fu rest1 ctx) end
         | Some KwSENTSINCE =>
             match rest with [] => Some false
-            | a :: rest1 => andk (t_sent_date T m (unquote a) CSince) (eval_loop fu rest1) end
-        | None => eval_loop fu rest                                (* default: unknown key, i++ *)
+            | a :: rest1 => andk (t_sent_date T m (unquote a) CSince) (eval_loop fu rest1 ctx) end
+        | None => eval_loop fu rest ctx                                (* default: unknown key, i++ *)
         end
   end
   end.
@@ -453,7 +464,7 @@ End Eval.
 (** every token costs its length plus one: bounds iterations and nesting *)
 Definition tokens_measure (toks : list str) : nat := fold_right (fun t n => S (length t) + n)%nat O toks.
 Definition eval_tokens (T : text_ops) (m : msg) (tokens : list str) : option bool :=
-  eval_loop T m (S (tokens_measure tokens)) tokens.
+  eval_loop T m (S (tokens_measure tokens)) tokens [].
 
 (** matchesSearchCriteria *)
 Definition matches_search_criteria (T : text_ops) (m : msg) (tokens : list str) : option bool :=
